@@ -51,8 +51,11 @@ func (t TermLocations) MergeOverlapping() {
 			lastTl = tl
 		} else if lastTl != nil && tl != nil {
 			if lastTl.Overlaps(tl) {
-				// ok merge this with previous
-				lastTl.End = tl.End
+				// ok merge this with previous, never shrinking it:
+				// a location nested inside the previous one ends earlier
+				if tl.End > lastTl.End {
+					lastTl.End = tl.End
+				}
 				t[i] = nil
 			}
 		}
